@@ -72,7 +72,7 @@ Apply2X(f, a, x) ==
              IN TupV(<<LstV(b), BoolV(Len(b) = f.c /\ ~(fresh /\ "batch-late" \in Deviations))>>)
       [] f.n = "ducAcc"   ->
              LET key == Apply(f.g, x) IN
-             IF V(a)[4] = BoolV(FALSE) \/ key # V(a)[3]
+             IF V(a)[4] = BoolV(FALSE) \/ NeqV(key, V(a)[3])
              THEN TupV(<<BoolV(TRUE), x, key, BoolV(TRUE)>>)
              ELSE TupV(<<BoolV(FALSE), x, key, BoolV(TRUE)>>)
       [] f.n = "progAcc"  -> TupV(<<x>>)
@@ -328,7 +328,7 @@ SplitStep(op, st, e) ==
                cur == Get(st.s, idx, "obj")
                first == cur = NotSet
                cp == IF first THEN np ELSE cur
-               changed == np # cp
+               changed == NeqV(np, cp)
            IN <<[st EXCEPT !.s = IF first \/ (changed /\ "split-no-store" \notin Deviations)
                                   THEN SetV(st.s, idx, np) ELSE st.s],
                 (IF first THEN <<In(MEv("c", ck, None))>> ELSE <<>>)
